@@ -48,6 +48,8 @@ class Replayer(object):
         self.day = datetime.datetime.today().strftime('%Y%m%d')
         self.ids = {}  # model unique name ('n1') -> real id
         self.recs = {}  # cassette -> (model id tuple, real recording)
+        self.held = {}  # (cassette, model unique name) -> the recording object that cassette saved
+        self.close_from = {}  # cassette -> length of the real mutation log when its close() began
         self.threads = {}  # cassette -> (thread, release event, result box)
         for k in ['unrelated/other', 'tape_recorder_recordings/z/full/f/DAY/n9', 'tape_recorder_recordings/z/metadata/f/DAY/n9']:
             self.store.objects[k.replace('DAY', self.day)] = (b'foreign', pytz.utc.localize(datetime.datetime.utcnow()), {})
@@ -108,11 +110,21 @@ class Replayer(object):
                         r.add_metadata({'m': 1, 'tags': ['compressible-metadata-value'] * 400})
                     self.ids[e['id'][-1]] = r.id
                     self.recs[c] = r
+                    self.held[(c, e['id'][-1])] = r
                 elif k == 'resavebegin':
                     r = cas.get_recording(self.ids[e['id'][-1]])
                     r.set_data('key2', {'again': idx})
                     r.add_metadata({'m2': idx})
                     self.recs[c] = r
+                elif k == 'resaveheld':
+                    # the very object that was saved before (the caller kept it), unchanged; where another cassette with
+                    # the same prefix put that id, the caller holds what it fetched from there
+                    r = self.held.get((c, e['id'][-1]))
+                    if r is None:
+                        r = cas.get_recording(self.ids[e['id'][-1]]) if e['id'][-1] in self.ids else None
+                    self.recs[c] = r
+                elif k == 'reuse':
+                    pass    # the same cassette object goes on being used after its close()
                 elif k == 'reject':
                     if c in self.threads:
                         self._finish_save(c, crash='reject')
@@ -143,9 +155,18 @@ class Replayer(object):
                 elif k == 'closedel':
                     # the two deletions of one close() call: performed at the first, checked at the second
                     if st['closing'][c] == 'half':
+                        self.close_from[c] = len(self.store.mutations)
                         self._start_close(c)
                     else:
                         self._finish_close(c)
+                        # closing a transient cassette removes all of its own recordings: nothing this cassette put is
+                        # left, unless another cassette with the same prefix put that key (again) after the close began
+                        muts = list(self.store.mutations)
+                        for j, m in enumerate(muts):
+                            if m[0] == 'put' and m[2] == c and m[1] in self.store.objects and not any(
+                                    m2[0] == 'put' and m2[1] == m[1] and m2[2] != c for m2 in muts[self.close_from.get(c, 0):]):
+                                mm('closeleft', idx, 'removed', m[1], 'object put by the transient cassette %s is still in the bucket '
+                                                                      'after its close()' % c)
                 elif k == 'closenoop':
                     if (hash(repr(e)) + idx) % 2:
                         cas.close()
@@ -354,7 +375,11 @@ def _work(task):
     return name, res
 
 
-CATS = {'bucket', 'mutations', 'readonly', 'confined', 'discoverable'}
+# what C15 states, evaluated on the real bucket and its mutation log after every step (and, for discoverable => fetchable,
+# right after every single mutation).  Differences between the real bucket / mutation log and the model's ('bucket',
+# 'mutations') are drift: another order of the two deletions of a close, a put that is skipped because the identical
+# object is already there, a retried put ... keep the property
+CATS = {'readonly', 'confined', 'discoverable', 'closeleft'}
 
 
 def run(rep, tier, seed):
@@ -363,16 +388,19 @@ def run(rep, tier, seed):
                 'sharing one bucket with foreign objects: create / save as two separately scheduled bucket mutations '
                 '(the real save_recording runs in a thread held before its second mutation, so other cassettes act in '
                 'between), crash after each mutation, write attempts on read-only cassettes, close / context-manager exit '
-                '(the two prefix deletions of a transient close also scheduled separately); after every step the real '
-                'bucket and the mutation log are compared with the model, every mutation is checked against read-only / '
-                'own-prefix, and a fresh read-only cassette must fetch everything it can list. non-trivial = path with a '
+                '(the two prefix deletions of a transient close also scheduled separately), a stored recording fetched and saved '
+                'again, a held recording object saved again unchanged, a cassette used again after close(); after every step the real '
+                'bucket and the mutation log are compared with the model (a difference is drift), every mutation is checked '
+                'against read-only / own-prefix, nothing a transient cassette put may be left after its close(), and a fresh '
+                'read-only cassette must fetch everything it can list - after every step and right after every single mutation. non-trivial = path with a '
                 'crash, a close or a read-only attempt; distinct = event sequence')
     rep.assumptions = ['fake bucket fidelity (prefix listing in key order, delete of listed keys)',
                        'a key prefix literally named "full" or "metadata" is outside the universe']
     # (saves, re-saves of a stored recording, may the bucket refuse a put?)
     # the (1, 1) variant also has a category that begins with a path separator ('/A')
-    variants = [(2, 0, True), (1, 1, True)] if tier == 'quick' else [(3, 0, False), (2, 1, True), (1, 1, True)]
-    cap = 700 if tier == 'quick' else 100000
+    # (1, 2): one save and two "again" steps - e.g. close, use the cassette again, save the held recording again
+    variants = [(2, 0, True), (1, 1, True), (1, 2, False)] if tier == 'quick' else [(3, 0, False), (2, 1, True), (1, 1, True), (1, 2, True)]
+    cap = 700 if tier == 'quick' else 40000
     rnd = random.Random(seed + 15)
     all_exh = True
     with tlc.Scratch() as s:
@@ -403,7 +431,7 @@ def run(rep, tier, seed):
                 paths = g.edge_cover_paths(rnd)
                 if len(paths) > cap:
                     # keep the cover's paths that contain the rarer actions first
-                    rare = {'Reject', 'ResaveBegin', 'Crash'}
+                    rare = {'Reject', 'ResaveBegin', 'Crash', 'Reuse', 'ResaveHeld'}
                     lab = {(a, b): l for a, out in g.succ.items() for l, b in out}   # action names from the dump
                     rnd.shuffle(paths)
                     paths.sort(key=lambda p: -len(rare & set(lab.get(e) for e in zip(p, p[1:]))))
@@ -428,12 +456,16 @@ def run(rep, tier, seed):
                         kinds = [k for k, _c in rr['summary']]
                         for k in kinds:
                             rep.count_action(k)
-                        rep.note_behaviour((nm, rr['summary']), bool(set(kinds) & {'crash', 'closedel', 'closenoop', 'roattempt', 'reject', 'resavebegin'}))
+                        rep.note_behaviour((nm, rr['summary']), bool(set(kinds) & {'crash', 'closedel', 'closenoop', 'roattempt', 'reject', 'resavebegin', 'resaveheld', 'reuse'}))
                         if len(rep.samples) < 3 and 'crash' in kinds:
                             rep.sample({'combination': name, 'behaviour': rr['summary']})
                         harness = [m for m in rr['mm'] if m['cat'] == 'harness']
                         bad = [m for m in rr['mm'] if m['cat'] in CATS]
-                        if harness and not bad:
+                        drift = [m for m in rr['mm'] if m['cat'] not in CATS and m['cat'] != 'harness']
+                        rep.drift += len(drift)
+                        if drift and 'drift_sample' not in rep.extra:
+                            rep.extra['drift_sample'] = {'combination': name, 'behaviour': rr['summary'], 'first': drift[0]}
+                        if harness and not bad and not drift:
                             # (a step that cannot be driven after the code already left the model is a consequence, not a
                             # machinery failure: the violations recorded before it are reported)
                             raise RuntimeError('harness failure: %s' % harness[0]['observed'])
